@@ -66,9 +66,9 @@ func c04AlgValue(t *tape.Tape, signerAlg int64) (item *refcbor.Item, kind string
 
 // c04Verdict is what the property demands of an attempt.
 type c04Expect struct {
-	mustFail    bool // error and no call at the seam
+	mustFail     bool // error and no call at the seam
 	mustMismatch bool // errors.Is ErrAlgorithmMismatch
-	why         string
+	why          string
 }
 
 func c04Expectation(hdrAlg *refcbor.Item, partyAlg int64, external []byte) c04Expect {
